@@ -596,7 +596,9 @@ class AnsiString:
         else:
             raise TypeError('Invalid type for __getitem__')
 
-        new_s = AnsiString(self._s[val])
+        # The characters are taken as they are - the constructor would parse them for ANSI directives
+        new_s = AnsiString()
+        new_s._s = self._s[val]
 
         if not new_s._s:
             # Special case - string is now empty
